@@ -1,15 +1,164 @@
 /-
 C16 - painted paths become shapes with the right points, class and graphics state.
 Property theorems only (helper lemmas: PdfVerif/Lemmas/Paths.lean).
+
+Model  = PdfVerif/Model/Paths.lean  (what pdfminer does: flat `curpath`, operator-letter string, regex split)
+Spec   = PdfVerif/Spec/Paths.lean   (what the property demands: sub-path records, `shapeOf`)
 -/
-import PdfVerif.Spec.Paths
+import PdfVerif.Lemmas.Paths
+
+set_option linter.constructorNameAsVariable false
 
 namespace PdfVerif.Props.C16
-open PdfVerif PdfVerif.Paths PdfVerif.PathSpec PdfVerif.Gen.PathsGen
+open PdfVerif PdfVerif.Paths PdfVerif.PathSpec PdfVerif.Gen.PathsGen PdfVerif.PathLemmas
 
-/-- `n` ends the path without painting: no shape, and nothing of the path is left for the next one. -/
-theorem C16_n_no_residue (st : IState) :
-    ∃ st', call .n [] st = .ok st' ∧ st'.curpath = [] ∧ st'.out = st.out := by
-  exact ⟨_, rfl, rfl, rfl⟩
+/-! ## Shapes of a painted path -/
+
+/-- FULL statement for one painting operator: painting the implementation's `curpath` of any
+well-formed list of sub-paths yields, after dropping the shapes of zero-segment sub-paths, exactly
+the shapes the specification demands - one per sub-path with a segment, in order, with points, class,
+bbox, transformed path, flags, width, dash and colours. -/
+def C16_paint_path_statement : Prop :=
+  ∀ (g : SGState) (st fi eo : Bool) (sps : List SubPath) (stp : Point), okFrom stp false sps →
+    (paintPath g.ctm (argsOf g st fi eo) (enc sps)).filter hasSeg = sps.filterMap (shapeOf g st fi eo)
+
+/-- Proved version: everything of the full statement except the ORDER of the four points of a
+rectangle (open finding `ltrect-pts-canonical-order`; see `C16_rect_pts_*` below for what holds). -/
+theorem C16_paint_path_partial (g : SGState) (st fi eo : Bool) (sps : List SubPath) (stp : Point)
+    (hok : okFrom stp false sps) :
+    ((paintPath g.ctm (argsOf g st fi eo) (enc sps)).filter hasSeg).map eraseRectPts =
+      (sps.filterMap (shapeOf g st fi eo)).map eraseRectPts :=
+  paintPath_enc g st fi eo sps stp hok
+
+/-- One sub-path with at least one segment gives exactly one shape: the specified one. -/
+theorem C16_subpath_shape_partial (g : SGState) (st fi eo : Bool) (sp : SubPath) (hne : sp.segs ≠ []) :
+    ∃ sh spec, paintSingle g.ctm (argsOf g st fi eo) (flat1 sp) = [sh] ∧ shapeOf g st fi eo sp = some spec ∧
+      eraseRectPts sh = eraseRectPts spec := by
+  have h := paintSingle_flat1 g st fi eo sp hne
+  rw [shapeOf_eq g st fi eo sp hne] at h ⊢
+  simp only [Option.toList, List.map_cons, List.map_nil] at h
+  obtain ⟨sh, rest, hp, h1, h2⟩ := List.map_eq_cons_iff.1 h
+  have hr : rest = [] := List.map_eq_nil_iff.1 h2
+  subst hr
+  exact ⟨sh, _, hp, rfl, h1⟩
+
+/-- Rectangle whose first side is horizontal in device space: `LTRect.pts` IS the segment order. -/
+theorem C16_rect_pts_horizontal (a : PaintArgs) (s p1 p2 p3 : Point) (tp : List PSeg)
+    (h : s.2 = p1.2 ∧ p1.1 = p2.1 ∧ p2.2 = p3.2 ∧ p3.1 = s.1) :
+    (mkRect a (s.1, s.2, p2.1, p2.2) tp).pts = [s, p1, p2, p3] := by
+  obtain ⟨sx, sy⟩ := s; obtain ⟨x1, y1⟩ := p1; obtain ⟨x2, y2⟩ := p2; obtain ⟨x3, y3⟩ := p3
+  obtain ⟨h1, h2, h3, h4⟩ := h
+  simp only at h1 h2 h3 h4
+  subst h1 h2 h3 h4
+  rfl
+
+/-- Rectangle whose first side is vertical: `LTRect.pts` is the REVERSED corner order `[p0,p3,p2,p1]`. -/
+theorem C16_rect_pts_vertical (a : PaintArgs) (s p1 p2 p3 : Point) (tp : List PSeg)
+    (h : s.1 = p1.1 ∧ p1.2 = p2.2 ∧ p2.1 = p3.1 ∧ p3.2 = s.2) :
+    (mkRect a (s.1, s.2, p2.1, p2.2) tp).pts = [s, p3, p2, p1] := by
+  obtain ⟨sx, sy⟩ := s; obtain ⟨x1, y1⟩ := p1; obtain ⟨x2, y2⟩ := p2; obtain ⟨x3, y3⟩ := p3
+  obtain ⟨h1, h2, h3, h4⟩ := h
+  simp only at h1 h2 h3 h4
+  subst h1 h2 h3 h4
+  rfl
+
+/-- The sub-path `0 0 m 0 1 l 2 1 l 2 0 l h` (first side vertical), identity CTM. -/
+def cexRect : SubPath := { start := (0, 0), segs := [.l (0, 1), .l (2, 1), .l (2, 0)], closed := true }
+def cexG : SGState :=
+  { ctm := (1, 0, 0, 1, 0, 0), linewidth := 0, dash := none, scolor := none, ncolor := none,
+    sspace := ⟨1, false⟩, nspace := ⟨1, false⟩ }
+
+/-- Proved counter-example to the full statement (replayed on the implementation by
+corpus/C16/open-ltrect-pts-order.json): the rectangle's points come out as `[p0,p3,p2,p1]`. -/
+theorem C16_rect_pts_cex :
+    (paintPath cexG.ctm (argsOf cexG true false false) (enc [cexRect])).map (·.pts) = [[(0, 0), (2, 0), (2, 1), (0, 1)]] ∧
+    ([cexRect].filterMap (shapeOf cexG true false false)).map (·.pts) = [[(0, 0), (0, 1), (2, 1), (2, 0)]] := by
+  constructor <;> decide +kernel
+
+theorem C16_paint_path_statement_cex : ¬ C16_paint_path_statement := by
+  intro h
+  have h1 := h cexG true false false [cexRect] (0, 0) ⟨by simp [cexRect], trivial⟩
+  have h2 := congrArg (fun l => l.map (·.pts)) h1
+  have hf : (paintPath cexG.ctm (argsOf cexG true false false) (enc [cexRect])).filter hasSeg =
+      paintPath cexG.ctm (argsOf cexG true false false) (enc [cexRect]) := by decide +kernel
+  rw [hf] at h2
+  simp only [C16_rect_pts_cex.1, C16_rect_pts_cex.2] at h2
+  revert h2
+  decide +kernel
+
+/-! ## No residue -/
+
+/-- Every painting operator and `n` leaves an empty current path (nothing leaks into the next path). -/
+theorem C16_no_residue (k : OpK) (hk : k ∈ [OpK.S, .s, .f, .F, .fstar, .B, .Bstar, .b, .bstar, .n]) (st : IState) :
+    ∃ st', call k [] st = .ok st' ∧ st'.curpath = [] := by
+  simp only [List.mem_cons, List.mem_nil_iff, or_false] at hk
+  rcases hk with rfl | rfl | rfl | rfl | rfl | rfl | rfl | rfl | rfl | rfl <;> exact ⟨_, rfl, rfl⟩
+
+/-- `n` yields no shape at all. -/
+theorem C16_n_paints_nothing (st : IState) :
+    ∃ st', call .n [] st = .ok st' ∧ st'.out = st.out ∧ st'.curpath = [] := ⟨_, rfl, rfl, rfl⟩
+
+/-! ## q / Q -/
+
+/-- Only `q` and `Q` touch the graphics-state stack. -/
+theorem C16_gstack_untouched (k : OpK) (hq : k ≠ .q) (hQ : k ≠ .Q) (st st' : IState)
+    (h : doOp k st = .ok st') : st'.gstack = st.gstack := by
+  unfold doOp at h
+  split at h
+  · cases h; rfl
+  · rename_i nargs _
+    have hpop : ∀ n, (pop n st).2.gstack = st.gstack := by
+      intro n; unfold pop; split <;> rfl
+    have hcall : ∀ args (s s' : IState), call k args s = .ok s' → s'.gstack = s.gstack := by
+      intro args s s' hc
+      have e1 : ∀ (s : IState) x, (pushSeg s x).gstack = s.gstack := fun _ _ => rfl
+      have e2 : ∀ (s : IState), (doH s).gstack = s.gstack := by
+        intro s; unfold doH; split <;> rfl
+      have e3 : ∀ (s : IState) a b c, (doPaint s a b c).gstack = s.gstack := fun _ _ _ _ => rfl
+      have e4 : ∀ (s : IState) b xs, (setColour s b xs).gstack = s.gstack := by
+        intro s b xs; unfold setColour; split <;> rfl
+      have e5 : ∀ (s : IState) b n, (setSpace s b n).gstack = s.gstack := by
+        intro s b n; unfold setSpace; split <;> rfl
+      have e6 : ∀ (s : IState) b sp args, (doDeviceColour s b sp args).gstack = s.gstack := by
+        intro s b sp args; unfold doDeviceColour; split
+        · rw [e5, e4]
+        · rfl
+      have e7 : ∀ (s s' : IState) b, doSetColourN s b = .ok s' → s'.gstack = s.gstack := by
+        intro s s' b h
+        unfold doSetColourN at h
+        have hpop : ∀ n, (pop n s).2.gstack = s.gstack := by
+          intro n; unfold pop; split <;> rfl
+        simp only at h
+        repeat' split at h
+        all_goals (cases h <;> first | (rw [e4]; exact hpop _) | exact hpop _ | rfl)
+      cases k <;> first | exact absurd rfl hq | exact absurd rfl hQ | skip
+      all_goals simp only [call] at hc
+      all_goals repeat' split at hc
+      all_goals first
+        | exact e7 _ _ _ hc
+        | (cases hc <;> first
+             | rfl | exact e1 _ _ | exact e2 _ | exact e6 _ _ _ _ | exact e5 _ _ _
+             | (rw [e3]; split <;> first | rfl | exact e2 _))
+    by_cases hn : nargs = 0
+    · simp only [hn, if_true] at h
+      exact hcall _ _ _ h
+    · simp only [hn, if_false] at h
+      split at h
+      · rw [hcall _ _ _ h, hpop]
+      · injection h with h; subst h; exact hpop _
+
+/-- `Q` after `q` restores the CTM and the whole graphics state (line width, dash, colours AND colour
+spaces), whatever happened in between, as long as the saved entry is on top of the stack again
+(`C16_gstack_untouched`: only q/Q change the stack). -/
+theorem C16_qQ_restores (st st1 : IState) (h : st1.gstack = (st.ctm, st.gs) :: st.gstack) :
+    ∃ st2, call .Q [] st1 = .ok st2 ∧ st2.ctm = st.ctm ∧ st2.gs = st.gs ∧ st2.gstack = st.gstack ∧
+      st2.curpath = st1.curpath ∧ st2.out = st1.out := by
+  refine ⟨{ st1 with ctm := st.ctm, gs := st.gs, gstack := st.gstack }, ?_, rfl, rfl, rfl, rfl, rfl⟩
+  simp [call, h]
+
+/-- `q` pushes exactly the current CTM and graphics state. -/
+theorem C16_q_saves (st : IState) :
+    ∃ st1, call .q [] st = .ok st1 ∧ st1.gstack = (st.ctm, st.gs) :: st.gstack ∧ st1.ctm = st.ctm ∧ st1.gs = st.gs :=
+  ⟨_, rfl, rfl, rfl, rfl⟩
 
 end PdfVerif.Props.C16
